@@ -78,6 +78,30 @@ func Probe(r *Replica, b *Block, tag string, txs [][]byte) (res []types.Response
 	return res, working, err
 }
 
+// ProbeReplay executes the same block the way a node does that only learns of the DECIDED block (block sync, replay of
+// the last block after a restart, a decided block other than the proposal it processed last): BeginBlock and DeliverTx
+// without PrepareProposal / ProcessProposal, uncommitted. Returns the results and the working state after the last
+// DeliverTx (Probe's working state is that of the whole executed proposal, EndBlock included: compare RESULTS).
+func ProbeReplay(r *Replica, b *Block, tag string, txs [][]byte) (res []types.ResponseDeliverTx, working StateDump, err error) {
+	err = Call(func() {
+		hash := []byte("probe-replay-" + tag)
+		r.Mux.BeginBlock(types.RequestBeginBlock{
+			Hash:                hash,
+			Header:              cmtproto.Header{Height: b.Height, Time: b.Time, ProposerAddress: b.Proposer.Address},
+			LastCommitInfo:      b.LastCommit,
+			ByzantineValidators: b.Misbehavior,
+		})
+		for _, tx := range txs {
+			res = append(res, r.Mux.DeliverTx(types.RequestDeliverTx{Tx: tx}))
+		}
+	})
+	if err != nil {
+		return nil, nil, err
+	}
+	working, err = DumpWorking(r)
+	return res, working, err
+}
+
 // Raw staking state keys (self-checked against the typed accessors by the callers).
 func AccountKey(a staking.Address) string { return string(append([]byte{0x50}, a[:]...)) }
 
